@@ -4,6 +4,7 @@ package main
 
 import (
 	"context"
+	"crypto/tls"
 	"encoding/binary"
 	"fmt"
 	"net"
@@ -375,6 +376,67 @@ func c13Scenario(name string, o c13Opt) *e2x.Scenario {
 	}}
 }
 
+// c13FailScenario (S6): a thread that makes two starts that fail before any serve loop runs, interleaved in every
+// way with a thread that calls Shutdown twice on the same Server. A server whose start failed is not started:
+// Shutdown must refuse at once ("shutting down one that is not [started] returns an error instead of blocking"),
+// and every start must return without blocking. The listen errors come from the real net package with addresses
+// that fail without touching the network (port 99999), a missing TLS configuration, an unknown network name, or a
+// Server with neither Listener nor PacketConn.
+func c13FailScenario(name, mode string) *e2x.Scenario {
+	return &e2x.Scenario{Name: name, New: func() (func(), func(*vsched.Exec) (string, map[string]string)) {
+		var errs [4]error
+		var ret [4]bool
+		body := func() {
+			srv := &dns.Server{Handler: dns.HandlerFunc(func(w dns.ResponseWriter, q *dns.Msg) {})}
+			start := srv.ListenAndServe
+			switch mode {
+			case "bad-network":
+				srv.Net, srv.Addr = "bogus", "127.0.0.1:0"
+			case "tcp-bad-port":
+				srv.Net, srv.Addr = "tcp", "127.0.0.1:99999"
+			case "udp-bad-port":
+				srv.Net, srv.Addr = "udp", "127.0.0.1:99999"
+			case "tls-no-config":
+				srv.Net, srv.Addr = "tcp-tls", "127.0.0.1:0"
+			case "tls-bad-port":
+				srv.Net, srv.Addr = "tcp-tls", "127.0.0.1:99999"
+				srv.TLSConfig = &tls.Config{GetCertificate: func(*tls.ClientHelloInfo) (*tls.Certificate, error) { return nil, nil }}
+			case "activate-nothing":
+				start = srv.ActivateAndServe
+			}
+			call := func(i int, tag string, f func() error) {
+				errs[i] = f()
+				ret[i] = true
+				vsched.Logf("%s-returned %v", tag, errs[i])
+			}
+			// two threads, two calls each: every interleaving of (start; start2) with (shutdown; shutdown2)
+			vsched.GoNamed("starter", func() { call(0, "start", start); call(1, "start2", start) })
+			vsched.GoNamed("stopper", func() { call(2, "shutdown", srv.Shutdown); call(3, "shutdown2", srv.Shutdown) })
+		}
+		check := func(x *vsched.Exec) (string, map[string]string) {
+			v := map[string]string{}
+			if x.Deadlock {
+				v["deadlock"] = fmt.Sprintf("a call on a Server whose start failed blocks: %v", x.Blocked)
+			}
+			for i, tag := range []string{"start", "start2"} {
+				if ret[i] && errs[i] == nil {
+					v["failed-start-returned-nil"] = tag + " returned nil although nothing could be served"
+				}
+				if ret[i] && errs[i] != nil && strings.Contains(errs[i].Error(), "already started") {
+					v["failed-start-leaves-server-started"] = tag + " was refused with 'server already started' although no start has succeeded"
+				}
+			}
+			for i, tag := range []string{"shutdown", "shutdown2"} {
+				if ret[i+2] && (errs[i+2] == nil || !strings.Contains(errs[i+2].Error(), "not started")) {
+					v["shutdown-of-failed-start"] = fmt.Sprintf("%s returned %v for a Server whose start failed (want the 'server not started' error)", tag, errs[i+2])
+				}
+			}
+			return fmt.Sprintf("start=%v start2=%v shutdown=%v shutdown2=%v", errs[0], errs[1], errs[2], errs[3]), v
+		}
+		return body, check
+	}}
+}
+
 func c13Spaces(c *fw.Ctx) {
 	cap := int64(600000)
 	if c.Thorough {
@@ -404,6 +466,9 @@ func c13Spaces(c *fw.Ctx) {
 		{"S3/pc/1-client+second-start", c13Opt{transport: "pc", clients: []string{"full"}, secondStart: true}, 1, 2},
 		{"S3/tcp/double-start-double-shutdown", c13Opt{transport: "tcp", secondStart: true, secondShutdown: true}, 2, 3},
 		{"S3/pc/double-start-double-shutdown", c13Opt{transport: "pc", secondStart: true, secondShutdown: true}, 1, 2},
+	}
+	for _, mode := range []string{"bad-network", "tcp-bad-port", "udp-bad-port", "tls-no-config", "tls-bad-port", "activate-nothing"} {
+		exploreSpace(c, "C13", c13FailScenario("S6/failed-start/"+mode, mode), 100, cap, "(failing start; failing start) ∥ (Shutdown; Shutdown) on one Server, every interleaving (S6/failed-start/"+mode+")")
 	}
 	for _, s := range list {
 		b := s.qb
